@@ -568,6 +568,10 @@ var profiles = map[string]*Profile{
 	"reject": {Name: "reject", Len: [2]int{10, 35}, MaxK: 6, PIndex: 35, PUnique: 25, PUpper: 25, PLower: 25,
 		PCache: 60, PAsync: 35, PGz: 10, PLowerDir: 10, PExt: 10, PBadInput: 45, SweepEvery: 2, NoHostile: true,
 		Weights: map[string]int{"ins": 50, "many": 15, "bulk": 6, "del": 6, "search": 6, "collect": 6, "reopen": 3}},
+	// C15: Transform, case transforms, then Validate, on every insertion path
+	"hooks": {Name: "hooks", Len: [2]int{10, 35}, MaxK: 6, PIndex: 35, PUnique: 0, PUpper: 40, PLower: 40,
+		PCache: 60, PAsync: 35, PGz: 10, PLowerDir: 10, PExt: 10, PBadInput: 55, SweepEvery: 2, NoHostile: true,
+		Weights: map[string]int{"ins": 45, "many": 20, "bulk": 12, "del": 4, "search": 5, "collect": 5, "reopen": 3}},
 	// C07: batches
 	"batch": {Name: "batch", Len: [2]int{8, 25}, MaxK: 10, PIndex: 30, PUnique: 20, PUpper: 15, PLower: 15,
 		PCache: 40, PAsync: 30, PGz: 10, PLowerDir: 10, PExt: 10, PBadInput: 12, SweepEvery: 3, NoHostile: true,
@@ -597,6 +601,14 @@ var profiles = map[string]*Profile{
 	"guard": {Name: "guard", Len: [2]int{10, 30}, MaxK: 8, PIndex: 35, PUnique: 10, PUpper: 15, PLower: 15,
 		PCache: 50, PAsync: 50, PGz: 20, PLowerDir: 10, PExt: 30, SweepEvery: 5, NoHostile: true,
 		Weights: map[string]int{"ins": 35, "many": 5, "del": 8, "recreate": 16, "reshape": 8, "reopen": 8, "ls": 6, "get": 6}},
+	// C05: crash points. Synchronous mode and calls whose file operations come in a defined order.
+	"crash": {Name: "crash", Len: [2]int{6, 16}, MaxK: 6, PIndex: 45, PUnique: 10, PUpper: 10, PLower: 10,
+		PCache: 50, PAsync: 0, PGz: 25, PLowerDir: 10, PExt: 20, PBadInput: 5, SweepEvery: 0, NoHostile: true,
+		Weights: map[string]int{"ins": 55, "many": 12, "bulk": 6, "del": 16, "reopen": 5, "recreate": 3}},
+	// C06 (storage part): the same, a single file operation fails
+	"iofault": {Name: "iofault", Len: [2]int{6, 16}, MaxK: 6, PIndex: 45, PUnique: 10, PUpper: 10, PLower: 10,
+		PCache: 60, PAsync: 0, PGz: 25, PLowerDir: 10, PExt: 20, PBadInput: 5, SweepEvery: 0, NoHostile: true,
+		Weights: map[string]int{"ins": 55, "many": 12, "bulk": 6, "del": 16, "reopen": 3}},
 	// C18: layout
 	"layout": {Name: "layout", Len: [2]int{8, 30}, MaxK: 8, PIndex: 35, PUnique: 8, PUpper: 10, PLower: 10,
 		PCache: 40, PAsync: 30, PGz: 50, PLowerDir: 50, PExt: 50, SweepEvery: 0, NoHostile: true,
